@@ -371,6 +371,16 @@ pub fn execute_run_with(sc: &RunScenario, keep_world: Option<&mut Option<World>>
     }
     let a = w.cli_v(&a_args);
     let (analyze_before, analyze_err) = if a.code == Some(0) { (a.json(), None) } else { (None, a.err_json().or(Some(Value::String(a.err_str())))) };
+    for ea in &sc.script.env_actions {
+        if let crate::rundrv::EnvAct::MakeHelper { rel } = &ea.act {
+            use std::os::unix::fs::PermissionsExt;
+            let p = w.root.join(rel);
+            let _ = std::fs::remove_file(&p);
+            if std::fs::write(&p, b"#!/bin/false\n").and_then(|_| std::fs::set_permissions(&p, std::fs::Permissions::from_mode(0o644))).is_err() {
+                return Prepared::Skip("cannot downgrade command file".into());
+            }
+        }
+    }
     let l = if listener {
         let cfg = crate::props_listen::ListenerCfg { stdout: true, stderr: true, targets: vec![], commands: vec![] };
         match crate::props_listen::start_listener(&mut w, &cfg) {
